@@ -20,6 +20,20 @@ def pair_table(src, names):
     return [(w, n) for w in words for n in names][:PAIR_CAP], len(words) * len(names) > PAIR_CAP
 
 
+def with_groups(rng, cases, frac=0.2):
+    """mark a fraction of the cases that contain a `name = value` item: the harness then wraps EVERY value, at every depth, in
+    1-2 invisible groups (values that are macro_rules! fragments); 5 / 6 leave a leading `-` outside the group (`a = -$n`)"""
+    for c in cases:
+        if c.get("entry", "meta") == "meta" and " = " in c["src"] and rng.random() < frac:
+            c["group_all"] = rng.choice([1, 2, 5, 5, 6])
+    return cases
+
+
+def shown(c):
+    return "`%s`%s" % (c["src"], (" (every value in %d invisible group(s)%s)" % (c["group_all"] % 4, ", a leading `-` outside" if c["group_all"] >= 4 else ""))
+                       if c.get("group_all") else "")
+
+
 def with_pairs(c, extra_names=()):
     x = recvlib.BY_NAME[c["target"]]
     c["pairs"], c["pairs_truncated"] = pair_table(c["src"], set(recvlib.all_names(x)) | set(extra_names))
@@ -35,7 +49,7 @@ def recv_part(R, prop, raw, holds, nontrivial, describe=None, key_fn=None, tag="
     out = convlib.run_conv_property(
         R, prop, raw, "run_recv_counted %s %s %%s" % (holds, nontrivial),
         lambda c, r: recvlib.c_case_recv(recvlib.BY_NAME[c["target"]], c, r),
-        describe=describe or (lambda c: "%s::%s on `%s`" % (c["target"], c["entry"], c["src"])),
+        describe=describe or (lambda c: "%s::%s on %s" % (c["target"], c["entry"], shown(c))),
         key_fn=key_fn or (lambda c, r: "recv"),
         model_body=model_body or "Eval vm_compute in (model_recv c).",
         failed_holds=failed or (holds + " (Exec/RecvCase.v)"), header=recvlib.HEADER_RECV, tag=tag)
